@@ -90,6 +90,11 @@ def matrices(rng, dim=3, classes=None):
         G[:dim, :dim] = L
         G[:dim, dim] = rng.uniform(-3, 3, size=dim)
         out += emit("affine", G)
+    # a mirror combined with micrometres -> metres: det = -1e-18 (3-D), below any "is it
+    # numerically negative" guard of the size of the machine epsilon
+    Mu = (T @ Mx).copy()
+    Mu[:dim, :dim] *= 1e-6
+    out += emit("mirror_similarity:1e-06", Mu)
     if dim == 3:
         P = I.copy()
         P[:3, :3] *= -1
